@@ -10,8 +10,16 @@ PROPS = ["C01", "C03", "C06", "C08", "C09", "C14", "C15", "C16", "C17", "C19"]
 # scenario mix per property: (kind, number quick, number thorough, size)
 MIX = {
     "default": [("normal", 50, 1500, 220), ("hostile", 25, 600, 160)],
-    "C03": [("hostile", 70, 2500, 200), ("normal", 25, 600, 200)],
+    "C01": [("normal", 40, 1200, 220), ("window", 20, 500, 160), ("retained", 15, 400, 200), ("shared", 10, 300, 200)],
+    "C03": [("hostile", 70, 2500, 200), ("normal", 20, 600, 200), ("shared", 15, 400, 200), ("window", 10, 200, 150)],
+    "C06": [("normal", 40, 1200, 220), ("session", 25, 600, 200), ("window", 15, 300, 150)],
+    "C08": [("session", 50, 1500, 220), ("normal", 20, 500, 220), ("retained", 15, 400, 200), ("window", 10, 200, 150)],
+    "C09": [("window", 40, 1000, 180), ("normal", 25, 700, 220), ("session", 15, 400, 200)],
     "C14": [("hostile", 60, 2000, 200), ("normal", 20, 500, 200)],
+    "C15": [("retained", 50, 1500, 220), ("normal", 20, 500, 220), ("session", 10, 300, 200)],
+    "C16": [("will", 50, 1500, 200), ("normal", 20, 500, 220)],
+    "C17": [("shared", 60, 1800, 220), ("session", 10, 300, 200), ("window", 10, 200, 150)],
+    "C19": [("normal", 30, 900, 200), ("hostile", 30, 900, 160), ("will", 15, 300, 200)],
 }
 
 NONTRIVIAL_RULE = {
